@@ -203,21 +203,58 @@ pub fn canon_result(world: &World, v: &Value) -> Value {
 pub struct Peer<'w> {
     pub world: &'w World,
     pub server: Server,
+    /// When set, every message goes to the real `oal-lsp` process instead of the
+    /// in-process server (`server` then only carries the cause of death).
+    pub real: Option<crate::realproc::RealProc>,
+    /// Document used for the barrier request that stands in for an idle tick in real mode.
+    pub barrier: Option<String>,
     pub diags: Diags,
     pub next_id: i32,
     pub log: String,
+    /// Canonical request answers and diagnostic snapshots, in order (sim-vs-real transcript).
+    pub transcript: Vec<String>,
+}
+
+pub fn real_lsp_bin() -> Option<String> {
+    std::env::var("OALSIM_REAL_LSP").ok().filter(|s| !s.is_empty())
+}
+
+fn to_message(v: Value) -> Option<Message> {
+    serde_json::from_value::<Message>(v).ok()
 }
 
 impl<'w> Peer<'w> {
     pub fn new(world: &'w World, with_folder: bool) -> Peer<'w> {
         let folders = if with_folder { vec![world.folder_uri()] } else { vec![] };
+        let real = real_lsp_bin().and_then(|b| crate::realproc::RealProc::spawn(&b, &folders));
+        let mut server = Server::new(&folders);
+        if real_lsp_bin().is_some() && real.is_none() {
+            server.death = Some("real process failed to start".into());
+        }
         Peer {
             world,
-            server: Server::new(&folders),
+            server,
+            real,
+            barrier: None,
             diags: Diags::new(),
             next_id: 1,
             log: String::new(),
+            transcript: Vec::new(),
         }
+    }
+
+    fn sync_real_death(&mut self) {
+        if let Some(r) = &self.real {
+            if let Some(d) = &r.dead {
+                if self.server.death.is_none() {
+                    self.server.death = Some(d.clone());
+                }
+            }
+        }
+    }
+
+    pub fn snapshot(&mut self) {
+        self.transcript.push(format!("D {:?}", self.diags));
     }
 
     fn absorb(&mut self, out: Vec<Message>) -> Option<Value> {
@@ -253,6 +290,11 @@ impl<'w> Peer<'w> {
 
     pub fn notify(&mut self, method: &str, params: Value) {
         self.log.push_str(&format!(">N {} {}\n", method, canon_result(self.world, &params)));
+        if let Some(r) = self.real.as_mut() {
+            r.send(&json!({"jsonrpc": "2.0", "method": method, "params": params}));
+            self.sync_real_death();
+            return;
+        }
         let out = self.server.step(Step::Deliver(Message::Notification(Notification {
             method: method.to_string(),
             params,
@@ -262,20 +304,52 @@ impl<'w> Peer<'w> {
 
     pub fn idle(&mut self) {
         self.log.push_str(">T\n");
+        if self.real.is_some() {
+            // An idle tick on the real process: a barrier request forces the same
+            // `refresh` (requests refresh before dispatch); without any document to ask
+            // about, wait for the genuine 1000 ms timer.
+            let msgs = match self.barrier.clone() {
+                Some(path) => {
+                    let id = self.next_id;
+                    self.next_id += 1;
+                    let uri = self.world.uri(&path);
+                    let params = json!({"textDocument": {"uri": uri}, "position": {"line": 0, "character": 0}});
+                    let mut v = self.real.as_mut().unwrap().request(id, "textDocument/definition", params);
+                    v.pop(); // the barrier's own answer is not part of the transcript
+                    v
+                }
+                None => self.real.as_mut().unwrap().drain(std::time::Duration::from_millis(1150)),
+            };
+            self.sync_real_death();
+            let out: Vec<Message> = msgs.into_iter().filter_map(to_message).collect();
+            self.absorb(out);
+            self.snapshot();
+            return;
+        }
         let out = self.server.step(Step::Timeout);
         self.absorb(out);
+        self.snapshot();
     }
 
     pub fn request(&mut self, method: &str, params: Value) -> Option<Value> {
         let id = self.next_id;
         self.next_id += 1;
         self.log.push_str(&format!(">Q {} {}\n", method, canon_result(self.world, &params)));
-        let out = self.server.step(Step::Deliver(Message::Request(Request {
-            id: RequestId::from(id),
-            method: method.to_string(),
-            params,
-        })));
-        self.absorb(out)
+        let out: Vec<Message> = if let Some(r) = self.real.as_mut() {
+            let msgs = r.request(id, method, params);
+            self.sync_real_death();
+            msgs.into_iter().filter_map(to_message).collect()
+        } else {
+            self.server.step(Step::Deliver(Message::Request(Request {
+                id: RequestId::from(id),
+                method: method.to_string(),
+                params,
+            })))
+        };
+        let a = self.absorb(out);
+        self.transcript.push(format!("A {}", a.as_ref().map(|v| canon_result(self.world, v).to_string()).unwrap_or_else(|| "-".into())));
+        self.snapshot();
+        a
     }
 
     pub fn did_open(&mut self, path: &str, text: &str, version: i32) {
@@ -312,8 +386,15 @@ pub fn fresh_peer<'w>(world: &'w World, client: &ClientModel) -> Peer<'w> {
     for (path, (text, version)) in client.open.iter() {
         p.did_open(path, text, *version);
     }
+    p.barrier = barrier_doc(client);
     p.idle();
     p
+}
+
+/// A document a request can be asked about without disturbing anything: an open one if
+/// there is any, else one on disk.
+pub fn barrier_doc(client: &ClientModel) -> Option<String> {
+    client.open.keys().next().cloned().or_else(|| client.disk.keys().next().cloned())
 }
 
 pub struct Exec<'w> {
@@ -418,7 +499,9 @@ impl<'w> Exec<'w> {
         let mut fresh = fresh_peer(self.world, &base);
         if !fresh.server.alive() {
             self.stats.count("skipped_pipeline_crash", 1);
-            self.discarded = Some(format!("refresh dies on a fresh server too: {}", fresh.server.death.clone().unwrap_or_default()));
+            let cause = fresh.server.death.clone().unwrap_or_default();
+            self.stats.count(&format!("pipeline_crash: {}", cause.chars().filter(|c| !c.is_ascii_digit()).take(70).collect::<String>()), 1);
+            self.discarded = Some(format!("refresh dies on a fresh server too: {cause}"));
             return;
         }
         match ev {
@@ -468,7 +551,9 @@ impl<'w> Exec<'w> {
         self.stats.evals += 1;
         if !fresh.server.alive() {
             self.stats.count("skipped_pipeline_crash", 1);
-            self.discarded = Some("fresh server dies in refresh".into());
+            let cause = fresh.server.death.clone().unwrap_or_default();
+            self.stats.count(&format!("pipeline_crash: {}", cause.chars().filter(|c| !c.is_ascii_digit()).take(70).collect::<String>()), 1);
+            self.discarded = Some(format!("fresh server dies in refresh: {cause}"));
             return;
         }
         self.stats.oracle_checks += 1;
@@ -519,6 +604,7 @@ impl<'w> Exec<'w> {
             return;
         }
         let pre_client = self.client.clone();
+        self.peer.barrier = barrier_doc(&self.client);
         let stale_before = self.peer.server.state.is_stale;
         let mut sent = true;
         match ev {
@@ -687,7 +773,7 @@ impl<'w> Exec<'w> {
             self.attribute_death(at, ev, &pre_client);
             return;
         }
-        if self.check_drift && sent {
+        if self.check_drift && sent && self.peer.real.is_none() {
             if let Some(d) = self.drift() {
                 self.fail(at, "document-drift", "document-drift".into(), d);
             }
@@ -796,6 +882,7 @@ pub fn death_signature(death: &str, kind: Option<ReqKind>) -> String {
 }
 
 pub struct Outcome {
+    pub transcript: Vec<String>,
     pub violation: Option<Violation>,
     pub discarded: Option<String>,
     pub stats: Stats,
@@ -827,6 +914,7 @@ pub fn run_scenario(scn: &Scenario, hook: Option<fn(&mut Exec, usize, &Ev)>) -> 
             let _ = std::fs::write(p, &ex.peer.log);
         }
         Outcome {
+            transcript: ex.peer.transcript.clone(),
             violation: ex.violation.clone(),
             discarded: ex.discarded.clone(),
             stats: ex.stats.clone(),
@@ -837,6 +925,7 @@ pub fn run_scenario(scn: &Scenario, hook: Option<fn(&mut Exec, usize, &Ev)>) -> 
     match r {
         Ok(o) => o,
         Err(p) => Outcome {
+            transcript: Vec::new(),
             violation: Some(Violation {
                 oracle: "harness-panic".into(),
                 detail: p.clone(),
